@@ -16,6 +16,12 @@ FLAVOURS = {
 }
 
 
+# a worker killed by a signal (segfault, allocator abort, sanitizer report) while running a
+# generated history through the safe API is memory corruption: a violation of these properties
+# if the saved case reproduces the crash; for the other properties it is reported as inconclusive
+CRASH_IS_VIOLATION = ("C05", "C06", "C07")
+
+
 def flavours_for(prop, tier):
     q, t = FLAVOURS.get(prop, (["dbg"], ["dbg"]))
     return q if tier == "quick" else t
@@ -46,7 +52,7 @@ def run_check(d, prop, tier, seed, replay, t0):
         for fl in flavours:
             owns, info, crashed = d.replay_one(bins[fl], prop, replay, tier, env=env_for(fl))
             print("[%s] %s" % (fl, json.dumps(info)[:3000]))
-            if owns or (crashed and prop in ("C05", "C07")):
+            if owns or (crashed and prop in CRASH_IS_VIOLATION):
                 bad = True
         if bad:
             violation_line(prop, replay)
@@ -65,7 +71,7 @@ def run_check(d, prop, tier, seed, replay, t0):
             sig = info.get("signature", "") if isinstance(info, dict) else ""
             if owns and sig in known_sigs:
                 continue
-            if owns or (crashed and prop in ("C05", "C07")):
+            if owns or (crashed and prop in CRASH_IS_VIOLATION):
                 violations.append((f, "[%s] saved case fails again: %s" % (fl, json.dumps(info)[:600])))
                 break
             if crashed:
@@ -82,7 +88,7 @@ def run_check(d, prop, tier, seed, replay, t0):
             n = max(20, cases // 3)
         if fl == "rel" and prop not in ("C10", "C04"):
             n = max(20, cases // 2)
-        results = d.spawn_workers(bins[fl], prop, tier, seed, n, fl, known_sigs, extra_env=(asan_env if fl == "asan" else None), current=(fl == "asan"))
+        results = d.spawn_workers(bins[fl], prop, tier, seed, n, fl, known_sigs, extra_env=(asan_env if fl == "asan" else None), current=(fl == "asan" or prop in CRASH_IS_VIOLATION))
         agg = d.aggregate(results)
         per_flavour[fl] = {"evaluations": agg["evaluations"], "workers": len(results), "workers_without_result": len(agg["infra"])}
         for r in agg["infra"]:
@@ -105,7 +111,7 @@ def run_check(d, prop, tier, seed, replay, t0):
                 inconclusive.append("worker %d (%s): one case exceeded the per-case time limit (possible hang); case saved as %s" % (r["i"], fl, hp))
             elif r["rc"] == "timeout":
                 inconclusive.append("worker %d (%s) hit the watchdog" % (r["i"], fl))
-            elif prop in ("C05", "C07") and os.path.exists(cur):
+            elif prop in CRASH_IS_VIOLATION and os.path.exists(cur):
                 # a crash (sanitizer report, segfault) while executing a generated case
                 try:
                     with open(cur) as f:
